@@ -153,3 +153,155 @@ pub fn encode_points_by_w(dc: &Decaf) -> Vec<(Pt, u64)> {
         })
         .collect()
 }
+
+// ---------------------------------------------------------------------------------------------
+// Intermediate-value targeting: inputs solved for so that a NAMED INTERMEDIATE of a high-level
+// routine equals a member of `fields::target_family` (boundary classes of limb-wise comparison
+// with q and with (q-1)/2, borrow-chain classes of negation, XOR-cancelling limb patterns,
+// small values). Each relation below is a polynomial identity of the specification; it is solved
+// in the reference.
+
+fn point_from_v(dc: &Decaf, v: &BigUint) -> Vec<Pt> {
+    let f = dc.f();
+    let d = &dc.c.d;
+    let den = f.add(&BigUint::one(), &f.mul(d, v));
+    if den.is_zero() {
+        return vec![];
+    }
+    let x2 = f.div(&f.sub(v, &BigUint::one()), &den);
+    match (f.sqrt(v), f.sqrt(&x2)) {
+        (Some(y), Some(x)) => vec![Pt { x: x.clone(), y: y.clone() }, Pt { x: f.neg(&x), y }],
+        _ => vec![],
+    }
+}
+
+/// r0 with one of {r, den, num, num*den, s} equal to a target (r = zeta r0^2)
+pub fn elligator_by_intermediate(dc: &Decaf) -> Vec<(BigUint, &'static str)> {
+    let f = dc.f();
+    let (a, d) = (&dc.c.a, &dc.c.d);
+    let a2d = f.sub(a, &f.mul(&u(2), d));
+    let dma = f.sub(d, a);
+    let p1 = lin(BigUint::one(), BigUint::one());
+    let p2 = lin(f.neg(&dma), d.clone());
+    let p3 = lin(f.neg(d), dma.clone());
+    let den = poly::mul(f, &p2, &p3);
+    let num = poly::scale(f, &p1, &a2d);
+    let x = poly::mul(f, &num, &den);
+    let rpoly: Poly = vec![BigUint::zero(), BigUint::one()];
+    let zi = f.inv(&dc.zeta).unwrap();
+    let fam = crate::fields::target_family(&f.p, 32);
+    fam.par_iter()
+        .flat_map(|t| {
+            let tc: Poly = vec![t.clone()];
+            let t2 = f.sqr(t);
+            let eqs: Vec<(&'static str, Poly)> = vec![
+                ("r", poly::sub(f, &rpoly, &tc)),
+                ("den", poly::sub(f, &den, &tc)),
+                ("num", poly::sub(f, &num, &tc)),
+                ("num*den", poly::sub(f, &x, &tc)),
+                ("s (square branch)", poly::sub(f, &poly::scale(f, &den, &t2), &num)),
+                ("s (non-square branch)", poly::sub(f, &poly::scale(f, &den, &t2), &poly::mul(f, &rpoly, &num))),
+            ];
+            let mut out = vec![];
+            for (name, eq) in eqs {
+                for r in poly::roots(f, &eq) {
+                    if let Some(r0) = f.sqrt(&f.mul(&r, &zi)) {
+                        out.push((r0, name));
+                    }
+                }
+            }
+            out
+        })
+        .collect()
+}
+
+/// canonical non-negative s with one of {s^2, u1, u2, u2*u1^2, the sign-check value 2 s u1 v}
+/// equal to a target
+pub fn decode_by_intermediate(dc: &Decaf) -> Vec<(BigUint, &'static str)> {
+    let f = dc.f();
+    let d = &dc.c.d;
+    let one = BigUint::one();
+    let spoly: Poly = vec![BigUint::zero(), one.clone()];
+    let u1 = lin(one.clone(), f.neg(&one));
+    let u1sq = poly::mul(f, &u1, &u1);
+    let u2 = poly::sub(f, &u1sq, &lin(BigUint::zero(), f.mul(&u(4), d)));
+    let arg = poly::mul(f, &u2, &u1sq);
+    let four_s: Poly = vec![BigUint::zero(), u(4)];
+    let fam = crate::fields::target_family(&f.p, 32);
+    fam.par_iter()
+        .flat_map(|t| {
+            let tc: Poly = vec![t.clone()];
+            let t2 = f.sqr(t);
+            let eqs: Vec<(&'static str, Poly)> = vec![
+                ("s^2", poly::sub(f, &spoly, &tc)),
+                ("u1", poly::sub(f, &u1, &tc)),
+                ("u2", poly::sub(f, &u2, &tc)),
+                ("u2*u1^2", poly::sub(f, &arg, &tc)),
+                // check = 2 s u1 v with v^2 = 1/(u2 u1^2)  =>  check^2 * u2 = 4 s^2
+                ("sign-check value", poly::sub(f, &poly::scale(f, &u2, &t2), &four_s)),
+            ];
+            let mut out = vec![];
+            for (name, eq) in eqs {
+                for w in poly::roots(f, &eq) {
+                    if let Some(s) = f.xsqrt(&w) {
+                        out.push((s, name));
+                    }
+                }
+            }
+            // s itself
+            if !t.bit(0) {
+                out.push((t.clone(), "s"));
+            }
+            out
+        })
+        .collect()
+}
+
+/// valid curve points with one of {x, y, u1 = (X+T)(X-T), T = xy} equal to a target (Z = 1)
+pub fn points_by_intermediate(dc: &Decaf) -> Vec<(Pt, &'static str)> {
+    let f = dc.f();
+    let d = &dc.c.d;
+    let one = BigUint::one();
+    let fam = crate::fields::target_family(&f.p, 32);
+    fam.par_iter()
+        .flat_map(|t| {
+            let mut cands: Vec<(Pt, &'static str)> = vec![];
+            // y = t
+            for p in point_from_v(dc, &f.sqr(t)) {
+                if p.y == *t {
+                    cands.push((p, "y"));
+                } else {
+                    cands.push((Pt { x: p.x.clone(), y: f.neg(&p.y) }, "y"));
+                }
+            }
+            // x = t : y^2 = (1 + x^2)/(1 - d x^2)
+            let xx = f.sqr(t);
+            let den = f.sub(&one, &f.mul(d, &xx));
+            if !den.is_zero() {
+                if let Some(y) = f.sqrt(&f.div(&f.add(&one, &xx), &den)) {
+                    cands.push((Pt { x: t.clone(), y: y.clone() }, "x"));
+                    cands.push((Pt { x: t.clone(), y: f.neg(&y) }, "x"));
+                }
+            }
+            // u1 = x^2 (1 - v) = -(v-1)^2/(1+dv) = t  =>  (v-1)^2 + t (1 + d v) = 0
+            let vm1 = lin(f.neg(&one), one.clone());
+            let eq = poly::add(f, &poly::mul(f, &vm1, &vm1), &poly::scale(f, &lin(one.clone(), d.clone()), t));
+            for v in poly::roots(f, &eq) {
+                for p in point_from_v(dc, &v) {
+                    cands.push((p, "u1"));
+                }
+            }
+            // T = x y = t : T^2 = x^2 y^2 = v (v-1)/(1+dv)  =>  v^2 - v - t^2 (1 + d v) = 0
+            let t2 = f.sqr(t);
+            let eq: Poly = vec![f.neg(&t2), f.neg(&f.add(&one, &f.mul(&t2, d))), one.clone()];
+            for v in poly::roots(f, &eq) {
+                for p in point_from_v(dc, &v) {
+                    if f.mul(&p.x, &p.y) == *t {
+                        cands.push((p, "T=xy"));
+                    }
+                }
+            }
+            cands.into_iter().filter(|(p, _)| dc.valid(p)).collect::<Vec<_>>()
+        })
+        .collect()
+}
